@@ -90,7 +90,7 @@ def build_chains(scenarios):
     for i in range(0, len(scenarios), 20):
         part = scenarios[i:i + 20]
         inp = "".join(json.dumps(s) + "\n" for s in part)
-        rc, out = V.ckbv("c06", ["chains"], timeout=1500, stdin=inp.encode())
+        rc, out = V.ckbv("c06", ["chains"], timeout=1500, stdin=inp.encode(), env={"VERIF_SATOSHI_GENESIS_CELLS": "1"})
         lines = V.parse_ndjson(out)
         summ = [x["summary"] for x in lines if "summary" in x]
         if rc != 0 or not summ:
